@@ -122,6 +122,34 @@ def root_local(fa, op):
     return pl["l"] if pl else None
 
 
+def table_var(fa, op):
+    """The variable (multi-definition or call-initialised local) a `&mut table` operand
+    reborrows, through copies, references and deref_mut calls."""
+    pl = op_place(op)
+    for _ in range(16):
+        if pl is None:
+            return None
+        if [e for e in pl["p"] if e != "*"]:
+            return pl["l"]
+        d = fa.single_def(pl["l"])
+        if d is None:
+            return pl["l"]
+        if d[2] == "call":
+            nm = (callee_of(d[3]) or {}).get("name")
+            if nm in ("deref_mut", "deref", "as_mut_slice", "as_mut", "borrow_mut") and d[3]["args"]:
+                pl = op_place(d[3]["args"][0])
+                continue
+            return pl["l"]
+        rv = d[3]
+        if rv["k"] == "use":
+            pl = op_place(rv["op"])
+        elif rv["k"] == "ref":
+            pl = rv["place"]
+        else:
+            return pl["l"]
+    return pl["l"] if pl else None
+
+
 def cname(t):
     c = callee_of(t)
     return strip_generics((c.get("resolved") or c)["path"]).rsplit("::", 1)[-1] if c else "?"
@@ -221,10 +249,12 @@ def padval(ctx):
         for b, t in calls_named(fa, "chunks_mut"):
             widths.add(root_local(fa, t["args"][1]))
         okr = bool(fills)
+        filled = set()
         for b, t in fills:
             ic = defcall(fa, t["args"][0])
             rng = None
             if ic and "index_mut" in cname(ic[1]):
+                filled.add(table_var(fa, ic[1]["args"][0]))
                 d = fa.single_def(op_place(ic[1]["args"][1])["l"]) if op_place(ic[1]["args"][1]) else None
                 if d and d[2] == "assign" and d[3]["k"] == "agg" and str(d[3].get("adt", "")).endswith("RangeTo"):
                     rng = root_local(fa, d[3]["ops"][0])
@@ -234,6 +264,15 @@ def padval(ctx):
                "by) is filled with the empty feature" if okr else
                "row 0 is filled over a range that is not the row width: with more than one vector "
                "per row the BOS/EOS costs of the later template positions are lost")
+        # the two fills address the two different tables, which end up in the two fields
+        names = fa.fn.local_names()
+        okd = len(filled) == 2 and None not in filled
+        ctx.ob("RESERVED0", "A|RawConnector::from_readers|row0-both-tables", okd, fn_loc(crate, p),
+               "row 0 is filled in both tables (%s)" % sorted(names.get(x, "_%s" % x) for x in filled)
+               if okd else
+               "the two row-0 fills address %s: one of the feature tables keeps the invalid id in "
+               "its BOS/EOS row, so every cost line with an empty feature on that side is dropped"
+               % sorted(names.get(x, "_%s" % x) for x in filled))
         ctx.ob("RESERVED0", "A|RawConnector::from_readers|row0-empty-feature", okf, fn_loc(crate, p),
                "row 0 (BOS/EOS) of both feature tables is filled with feature id 0, the empty "
                "feature" if okf else "row 0 of the feature tables is not filled with the empty "
